@@ -1,0 +1,721 @@
+//! Verification shim (only compiled with `--cfg sighook_verif`).
+//!
+//! Drop-in replacements for the few `std::sync` primitives the library uses, reporting every
+//! operation to an externally installed [`Hooks`] table before performing it. Without installed
+//! hooks every wrapper behaves exactly like the `std` type it wraps. Nothing in here is used in
+//! a normal build.
+#![allow(missing_docs, deprecated, clippy::all)]
+
+use std::sync::atomic::{AtomicPtr as StdAtomicPtr, Ordering as O};
+
+/// What kind of operation is about to happen.
+#[derive(Copy, Clone, Debug, PartialEq, Eq, Hash)]
+pub enum Kind {
+    Load,
+    Store,
+    Swap,
+    FetchAdd,
+    FetchSub,
+    FetchOther,
+    Cas,
+    CasWeak,
+    Fence,
+    MutexLock,
+    MutexTryLock,
+    MutexUnlock,
+    Yield,
+    Spin,
+    PipeWake,
+    PipeDrain,
+    BlockReadable,
+    Body,
+}
+
+/// Description of one operation.
+#[derive(Copy, Clone, Debug)]
+pub struct OpDesc {
+    pub kind: Kind,
+    pub addr: usize,
+    pub width: u8,
+    pub success: O,
+    pub failure: O,
+    pub operand: u64,
+    pub expected: u64,
+}
+
+/// Log-only events (never scheduling points).
+#[derive(Copy, Clone, Debug, PartialEq, Eq, Hash)]
+pub enum Event {
+    Alloc,
+    Publish,
+    Free,
+    SectionOpen,
+    SectionClose,
+    Installed,
+    Stored,
+    ChannelNew,
+    CellWrite,
+    CellTake,
+    Other,
+}
+
+/// Result of the real operation: value before, value after, did it succeed (CAS).
+pub type Real = (u64, u64, bool);
+
+/// The hook table an external executor installs.
+pub trait Hooks: Sync {
+    /// Scheduling point + memory-model decision for one atomic operation. `real` performs the
+    /// operation on the real atomic. The hook may decide not to call it (spurious weak-CAS
+    /// failure) or to override the value a load returns (stale read). Returns (old value, ok).
+    fn atomic(&self, op: &OpDesc, real: &dyn Fn() -> Real) -> (u64, bool);
+    /// Called before really locking. Returns once the lock is free at the scheduler level.
+    fn mutex_lock(&self, addr: usize);
+    /// try_lock: returns whether the scheduler lets us take it.
+    fn mutex_try_lock(&self, addr: usize) -> bool;
+    /// Called after really unlocking.
+    fn mutex_unlock(&self, addr: usize, panicking: bool);
+    /// Any other scheduling point.
+    fn point(&self, op: &OpDesc);
+    /// The thread is about to block until `fd` is readable.
+    fn block_readable(&self, fd: i32);
+    /// Log only.
+    fn event(&self, ev: Event, a: usize, b: usize);
+}
+
+static HOOKS: StdAtomicPtr<&'static dyn Hooks> = StdAtomicPtr::new(std::ptr::null_mut());
+
+/// Install the hooks (leaks one pointer-sized box). May be called once per process.
+pub fn install(h: &'static dyn Hooks) {
+    let b = Box::into_raw(Box::new(h));
+    HOOKS.store(b, O::SeqCst);
+}
+
+#[inline]
+fn hooks() -> Option<&'static dyn Hooks> {
+    let p = HOOKS.load(O::Acquire);
+    if p.is_null() {
+        None
+    } else {
+        Some(unsafe { *p })
+    }
+}
+
+/// Is anything installed?
+pub fn installed() -> bool {
+    hooks().is_some()
+}
+
+/// Emit an event.
+#[inline]
+pub fn event(ev: Event, a: usize, b: usize) {
+    if let Some(h) = hooks() {
+        h.event(ev, a, b);
+    }
+}
+
+/// A non-atomic scheduling point.
+#[inline]
+pub fn point(kind: Kind, a: usize) {
+    if let Some(h) = hooks() {
+        h.point(&OpDesc {
+            kind,
+            addr: a,
+            width: 0,
+            success: O::SeqCst,
+            failure: O::SeqCst,
+            operand: 0,
+            expected: 0,
+        });
+    }
+}
+
+/// The caller is about to block reading `fd`.
+#[inline]
+pub fn block_readable(fd: i32) {
+    if let Some(h) = hooks() {
+        h.block_readable(fd);
+    }
+}
+
+#[inline]
+fn run(op: OpDesc, real: &dyn Fn() -> Real) -> (u64, bool) {
+    match hooks() {
+        None => {
+            let (old, _, ok) = real();
+            (old, ok)
+        }
+        Some(h) => h.atomic(&op, real),
+    }
+}
+
+fn fail_ord(o: O) -> O {
+    match o {
+        O::Release => O::Relaxed,
+        O::AcqRel => O::Acquire,
+        o => o,
+    }
+}
+
+pub mod atomic {
+    //! Mirrors `std::sync::atomic`.
+    use super::{fail_ord, run, Kind, OpDesc};
+    pub use std::sync::atomic::Ordering;
+    use std::sync::atomic as sa;
+
+    /// See `std::sync::atomic::spin_loop_hint`.
+    pub fn spin_loop_hint() {
+        super::point(Kind::Spin, 0);
+        std::hint::spin_loop();
+    }
+
+    /// See `std::hint::spin_loop`.
+    pub fn spin_loop() {
+        spin_loop_hint()
+    }
+
+    /// See `std::sync::atomic::fence`.
+    pub fn fence(order: Ordering) {
+        let d = OpDesc {
+            kind: Kind::Fence,
+            addr: 0,
+            width: 0,
+            success: order,
+            failure: order,
+            operand: 0,
+            expected: 0,
+        };
+        run(d, &|| {
+            sa::fence(order);
+            (0, 0, true)
+        });
+    }
+
+    pub use std::sync::atomic::compiler_fence;
+
+    /// Conversion of atomic payloads to and from the 64-bit representation the hooks see.
+    pub trait Word: Copy {
+        fn w_to(self) -> u64;
+        fn w_back(w: u64) -> Self;
+    }
+    trait WordFrom<T> {
+        fn w_from(self) -> T;
+    }
+    impl<T: Word> WordFrom<T> for u64 {
+        fn w_from(self) -> T {
+            T::w_back(self)
+        }
+    }
+    macro_rules! word {
+        ($($t:ty),*) => {$(
+            impl Word for $t {
+                fn w_to(self) -> u64 { self as u64 }
+                fn w_back(w: u64) -> Self { w as $t }
+            }
+        )*};
+    }
+    word!(usize, isize, u64, i64, u32, i32, u16, i16, u8, i8);
+    impl Word for bool {
+        fn w_to(self) -> u64 {
+            self as u64
+        }
+        fn w_back(w: u64) -> Self {
+            w != 0
+        }
+    }
+
+    macro_rules! desc {
+        ($self:ident, $kind:expr, $w:expr, $s:expr, $f:expr, $operand:expr, $expected:expr) => {
+            OpDesc {
+                kind: $kind,
+                addr: &$self.0 as *const _ as usize,
+                width: $w,
+                success: $s,
+                failure: $f,
+                operand: $operand,
+                expected: $expected,
+            }
+        };
+    }
+
+    macro_rules! int_atomic {
+        ($name:ident, $std:ident, $t:ty, $w:expr) => {
+            /// Shim for the std type of the same name.
+            #[derive(Default)]
+            pub struct $name(sa::$std);
+
+            impl std::fmt::Debug for $name {
+                fn fmt(&self, f: &mut std::fmt::Formatter) -> std::fmt::Result {
+                    self.0.fmt(f)
+                }
+            }
+
+            impl From<$t> for $name {
+                fn from(v: $t) -> Self {
+                    Self::new(v)
+                }
+            }
+
+            impl $name {
+                pub const fn new(v: $t) -> Self {
+                    $name(sa::$std::new(v))
+                }
+                pub fn get_mut(&mut self) -> &mut $t {
+                    self.0.get_mut()
+                }
+                pub fn into_inner(self) -> $t {
+                    self.0.into_inner()
+                }
+                pub fn load(&self, o: Ordering) -> $t {
+                    let d = desc!(self, Kind::Load, $w, o, o, 0, 0);
+                    run(d, &|| {
+                        let v = self.0.load(o).w_to();
+                        (v, v, true)
+                    })
+                    .0.w_from()
+                }
+                pub fn store(&self, v: $t, o: Ordering) {
+                    let d = desc!(self, Kind::Store, $w, o, o, v.w_to(), 0);
+                    run(d, &|| {
+                        self.0.store(v, o);
+                        (0, v.w_to(), true)
+                    });
+                }
+                pub fn swap(&self, v: $t, o: Ordering) -> $t {
+                    let d = desc!(self, Kind::Swap, $w, o, fail_ord(o), v.w_to(), 0);
+                    run(d, &|| (self.0.swap(v, o).w_to(), v.w_to(), true)).0.w_from()
+                }
+                pub fn compare_exchange(
+                    &self,
+                    cur: $t,
+                    new: $t,
+                    s: Ordering,
+                    f: Ordering,
+                ) -> Result<$t, $t> {
+                    let d = desc!(self, Kind::Cas, $w, s, f, new.w_to(), cur.w_to());
+                    let (old, ok) = run(d, &|| match self.0.compare_exchange(cur, new, s, f) {
+                        Ok(o) => (o.w_to(), new.w_to(), true),
+                        Err(o) => (o.w_to(), o.w_to(), false),
+                    });
+                    if ok {
+                        Ok(old.w_from())
+                    } else {
+                        Err(old.w_from())
+                    }
+                }
+                pub fn compare_exchange_weak(
+                    &self,
+                    cur: $t,
+                    new: $t,
+                    s: Ordering,
+                    f: Ordering,
+                ) -> Result<$t, $t> {
+                    let d = desc!(self, Kind::CasWeak, $w, s, f, new.w_to(), cur.w_to());
+                    // The real operation is the strong one; spurious failures are injected by
+                    // the hook (by not calling `real`).
+                    let (old, ok) = run(d, &|| match self.0.compare_exchange(cur, new, s, f) {
+                        Ok(o) => (o.w_to(), new.w_to(), true),
+                        Err(o) => (o.w_to(), o.w_to(), false),
+                    });
+                    if ok {
+                        Ok(old.w_from())
+                    } else {
+                        Err(old.w_from())
+                    }
+                }
+                pub fn compare_and_swap(&self, cur: $t, new: $t, o: Ordering) -> $t {
+                    match self.compare_exchange(cur, new, o, fail_ord(o)) {
+                        Ok(v) | Err(v) => v,
+                    }
+                }
+                pub fn fetch_update<F: FnMut($t) -> Option<$t>>(
+                    &self,
+                    set: Ordering,
+                    fetch: Ordering,
+                    mut f: F,
+                ) -> Result<$t, $t> {
+                    let mut prev = self.load(fetch);
+                    while let Some(next) = f(prev) {
+                        match self.compare_exchange_weak(prev, next, set, fetch) {
+                            x @ Ok(_) => return x,
+                            Err(next_prev) => prev = next_prev,
+                        }
+                    }
+                    Err(prev)
+                }
+            }
+        };
+    }
+
+    macro_rules! int_rmw {
+        ($name:ident, $t:ty, $w:expr, $( ($m:ident, $kind:expr, $new:expr) ),*) => {
+            impl $name {
+                $(
+                pub fn $m(&self, v: $t, o: Ordering) -> $t {
+                    let d = desc!(self, $kind, $w, o, fail_ord(o), v.w_to(), 0);
+                    run(d, &|| {
+                        let old = self.0.$m(v, o);
+                        let f: fn($t, $t) -> $t = $new;
+                        (old.w_to(), f(old, v).w_to(), true)
+                    })
+                    .0.w_from()
+                }
+                )*
+            }
+        };
+    }
+
+    macro_rules! int_full {
+        ($name:ident, $std:ident, $t:ty, $w:expr) => {
+            int_atomic!($name, $std, $t, $w);
+            int_rmw!(
+                $name,
+                $t,
+                $w,
+                (fetch_add, Kind::FetchAdd, |a, b| a.wrapping_add(b)),
+                (fetch_sub, Kind::FetchSub, |a, b| a.wrapping_sub(b)),
+                (fetch_and, Kind::FetchOther, |a, b| a & b),
+                (fetch_or, Kind::FetchOther, |a, b| a | b),
+                (fetch_xor, Kind::FetchOther, |a, b| a ^ b),
+                (fetch_nand, Kind::FetchOther, |a, b| !(a & b)),
+                (fetch_max, Kind::FetchOther, |a, b| if a > b { a } else { b }),
+                (fetch_min, Kind::FetchOther, |a, b| if a < b { a } else { b })
+            );
+        };
+    }
+
+    int_full!(AtomicUsize, AtomicUsize, usize, 8);
+    int_full!(AtomicIsize, AtomicIsize, isize, 8);
+    int_full!(AtomicU64, AtomicU64, u64, 8);
+    int_full!(AtomicI64, AtomicI64, i64, 8);
+    int_full!(AtomicU32, AtomicU32, u32, 4);
+    int_full!(AtomicI32, AtomicI32, i32, 4);
+    int_full!(AtomicU16, AtomicU16, u16, 2);
+    int_full!(AtomicI16, AtomicI16, i16, 2);
+    int_full!(AtomicU8, AtomicU8, u8, 1);
+    int_full!(AtomicI8, AtomicI8, i8, 1);
+
+    int_atomic!(AtomicBool, AtomicBool, bool, 1);
+    int_rmw!(
+        AtomicBool,
+        bool,
+        1,
+        (fetch_and, Kind::FetchOther, |a, b| a & b),
+        (fetch_or, Kind::FetchOther, |a, b| a | b),
+        (fetch_xor, Kind::FetchOther, |a, b| a ^ b),
+        (fetch_nand, Kind::FetchOther, |a, b| !(a & b))
+    );
+
+    /// Shim for `std::sync::atomic::AtomicPtr`.
+    pub struct AtomicPtr<T>(sa::AtomicPtr<T>);
+
+    impl<T> Default for AtomicPtr<T> {
+        fn default() -> Self {
+            AtomicPtr(sa::AtomicPtr::default())
+        }
+    }
+
+    impl<T> std::fmt::Debug for AtomicPtr<T> {
+        fn fmt(&self, f: &mut std::fmt::Formatter) -> std::fmt::Result {
+            self.0.fmt(f)
+        }
+    }
+
+    impl<T> From<*mut T> for AtomicPtr<T> {
+        fn from(p: *mut T) -> Self {
+            Self::new(p)
+        }
+    }
+
+    impl<T> AtomicPtr<T> {
+        pub const fn new(p: *mut T) -> Self {
+            AtomicPtr(sa::AtomicPtr::new(p))
+        }
+        pub fn get_mut(&mut self) -> &mut *mut T {
+            self.0.get_mut()
+        }
+        pub fn into_inner(self) -> *mut T {
+            self.0.into_inner()
+        }
+        pub fn load(&self, o: Ordering) -> *mut T {
+            let d = desc!(self, Kind::Load, 8, o, o, 0, 0);
+            run(d, &|| {
+                let v = self.0.load(o) as usize as u64;
+                (v, v, true)
+            })
+            .0 as usize as *mut T
+        }
+        pub fn store(&self, p: *mut T, o: Ordering) {
+            let d = desc!(self, Kind::Store, 8, o, o, p as usize as u64, 0);
+            run(d, &|| {
+                self.0.store(p, o);
+                (0, p as usize as u64, true)
+            });
+        }
+        pub fn swap(&self, p: *mut T, o: Ordering) -> *mut T {
+            let d = desc!(self, Kind::Swap, 8, o, fail_ord(o), p as usize as u64, 0);
+            run(d, &|| {
+                (
+                    self.0.swap(p, o) as usize as u64,
+                    p as usize as u64,
+                    true,
+                )
+            })
+            .0 as usize as *mut T
+        }
+        pub fn compare_exchange(
+            &self,
+            cur: *mut T,
+            new: *mut T,
+            s: Ordering,
+            f: Ordering,
+        ) -> Result<*mut T, *mut T> {
+            let d = desc!(
+                self,
+                Kind::Cas,
+                8,
+                s,
+                f,
+                new as usize as u64,
+                cur as usize as u64
+            );
+            let (old, ok) = run(d, &|| match self.0.compare_exchange(cur, new, s, f) {
+                Ok(o) => (o as usize as u64, new as usize as u64, true),
+                Err(o) => (o as usize as u64, o as usize as u64, false),
+            });
+            if ok {
+                Ok(old as usize as *mut T)
+            } else {
+                Err(old as usize as *mut T)
+            }
+        }
+        pub fn compare_exchange_weak(
+            &self,
+            cur: *mut T,
+            new: *mut T,
+            s: Ordering,
+            f: Ordering,
+        ) -> Result<*mut T, *mut T> {
+            let d = desc!(
+                self,
+                Kind::CasWeak,
+                8,
+                s,
+                f,
+                new as usize as u64,
+                cur as usize as u64
+            );
+            let (old, ok) = run(d, &|| match self.0.compare_exchange(cur, new, s, f) {
+                Ok(o) => (o as usize as u64, new as usize as u64, true),
+                Err(o) => (o as usize as u64, o as usize as u64, false),
+            });
+            if ok {
+                Ok(old as usize as *mut T)
+            } else {
+                Err(old as usize as *mut T)
+            }
+        }
+        pub fn compare_and_swap(&self, cur: *mut T, new: *mut T, o: Ordering) -> *mut T {
+            match self.compare_exchange(cur, new, o, fail_ord(o)) {
+                Ok(v) | Err(v) => v,
+            }
+        }
+    }
+}
+
+pub mod sync {
+    //! Mirrors the parts of `std::sync` the library uses.
+    use std::fmt;
+    use std::ops::{Deref, DerefMut};
+    use std::sync as ss;
+    pub use std::sync::{Arc, Once, Weak, ONCE_INIT};
+
+    /// Shim for `std::sync::Mutex`. Data lives in a real mutex which is only ever taken by the
+    /// thread the scheduler let through, so it never contends when hooks are installed.
+    #[derive(Default)]
+    pub struct Mutex<T>(ss::Mutex<T>);
+
+    impl<T: fmt::Debug> fmt::Debug for Mutex<T> {
+        fn fmt(&self, f: &mut fmt::Formatter) -> fmt::Result {
+            self.0.fmt(f)
+        }
+    }
+
+    impl<T> From<T> for Mutex<T> {
+        fn from(t: T) -> Self {
+            Self::new(t)
+        }
+    }
+
+    /// Shim for `std::sync::MutexGuard`.
+    pub struct MutexGuard<'a, T: 'a> {
+        inner: Option<ss::MutexGuard<'a, T>>,
+        addr: usize,
+    }
+
+    /// Shim for `std::sync::PoisonError`.
+    pub struct PoisonError<G> {
+        guard: G,
+    }
+
+    /// Shim for `std::sync::TryLockError`.
+    pub enum TryLockError<G> {
+        Poisoned(PoisonError<G>),
+        WouldBlock,
+    }
+
+    impl<G> fmt::Debug for TryLockError<G> {
+        fn fmt(&self, f: &mut fmt::Formatter) -> fmt::Result {
+            match self {
+                TryLockError::Poisoned(_) => f.write_str("Poisoned(..)"),
+                TryLockError::WouldBlock => f.write_str("WouldBlock"),
+            }
+        }
+    }
+
+    /// Shim for `std::sync::LockResult`.
+    pub type LockResult<G> = Result<G, PoisonError<G>>;
+    /// Shim for `std::sync::TryLockResult`.
+    pub type TryLockResult<G> = Result<G, TryLockError<G>>;
+
+    impl<G> PoisonError<G> {
+        pub fn new(guard: G) -> Self {
+            PoisonError { guard }
+        }
+        pub fn into_inner(self) -> G {
+            self.guard
+        }
+        pub fn get_ref(&self) -> &G {
+            &self.guard
+        }
+        pub fn get_mut(&mut self) -> &mut G {
+            &mut self.guard
+        }
+    }
+
+    impl<G> fmt::Debug for PoisonError<G> {
+        fn fmt(&self, f: &mut fmt::Formatter) -> fmt::Result {
+            f.write_str("PoisonError { .. }")
+        }
+    }
+
+    impl<G> fmt::Display for PoisonError<G> {
+        fn fmt(&self, f: &mut fmt::Formatter) -> fmt::Result {
+            f.write_str("poisoned lock: another task failed inside")
+        }
+    }
+
+    impl<G> std::error::Error for PoisonError<G> {}
+
+    impl<T> Mutex<T> {
+        pub const fn new(t: T) -> Self {
+            Mutex(ss::Mutex::new(t))
+        }
+
+        fn addr(&self) -> usize {
+            &self.0 as *const _ as usize
+        }
+
+        pub fn lock(&self) -> LockResult<MutexGuard<T>> {
+            let addr = self.addr();
+            if let Some(h) = super::hooks() {
+                h.mutex_lock(addr);
+            }
+            match self.0.lock() {
+                Ok(g) => Ok(MutexGuard {
+                    inner: Some(g),
+                    addr,
+                }),
+                Err(p) => Err(PoisonError {
+                    guard: MutexGuard {
+                        inner: Some(p.into_inner()),
+                        addr,
+                    },
+                }),
+            }
+        }
+
+        pub fn try_lock(&self) -> TryLockResult<MutexGuard<T>> {
+            let addr = self.addr();
+            if let Some(h) = super::hooks() {
+                if !h.mutex_try_lock(addr) {
+                    return Err(TryLockError::WouldBlock);
+                }
+            }
+            match self.0.try_lock() {
+                Ok(g) => Ok(MutexGuard {
+                    inner: Some(g),
+                    addr,
+                }),
+                Err(ss::TryLockError::Poisoned(p)) => Err(TryLockError::Poisoned(PoisonError {
+                    guard: MutexGuard {
+                        inner: Some(p.into_inner()),
+                        addr,
+                    },
+                })),
+                Err(ss::TryLockError::WouldBlock) => {
+                    if let Some(h) = super::hooks() {
+                        h.mutex_unlock(addr, false);
+                    }
+                    Err(TryLockError::WouldBlock)
+                }
+            }
+        }
+
+        pub fn is_poisoned(&self) -> bool {
+            self.0.is_poisoned()
+        }
+
+        pub fn get_mut(&mut self) -> LockResult<&mut T> {
+            self.0.get_mut().map_err(|p| PoisonError {
+                guard: p.into_inner(),
+            })
+        }
+
+        pub fn into_inner(self) -> LockResult<T> {
+            self.0.into_inner().map_err(|p| PoisonError {
+                guard: p.into_inner(),
+            })
+        }
+    }
+
+    impl<'a, T> Deref for MutexGuard<'a, T> {
+        type Target = T;
+        fn deref(&self) -> &T {
+            self.inner.as_ref().unwrap()
+        }
+    }
+
+    impl<'a, T> DerefMut for MutexGuard<'a, T> {
+        fn deref_mut(&mut self) -> &mut T {
+            self.inner.as_mut().unwrap()
+        }
+    }
+
+    impl<'a, T: fmt::Debug> fmt::Debug for MutexGuard<'a, T> {
+        fn fmt(&self, f: &mut fmt::Formatter) -> fmt::Result {
+            (**self).fmt(f)
+        }
+    }
+
+    impl<'a, T> Drop for MutexGuard<'a, T> {
+        fn drop(&mut self) {
+            // Really unlock first (this is what sets the std poison flag when panicking), then
+            // tell the scheduler.
+            drop(self.inner.take());
+            if let Some(h) = super::hooks() {
+                h.mutex_unlock(self.addr, std::thread::panicking());
+            }
+        }
+    }
+}
+
+pub mod thread {
+    //! Mirrors the parts of `std::thread` the library uses.
+    pub use std::thread::*;
+
+    /// See `std::thread::yield_now`.
+    pub fn yield_now() {
+        super::point(super::Kind::Yield, 0);
+        std::thread::yield_now();
+    }
+}
